@@ -120,11 +120,36 @@ def install_meta(R):
                          "dimensions, 1-3 variables with and without an internal dimension, whole-cell / per-variable / partial-cell null patterns and infinities, "
                          "numeric and string coordinates, isnull and isfinite; find_missing_cases in grid order without duplicates, parse_into_cases with absent "
                          "coordinates) and the find -> harvest -> find loop",
-        not_decided=["find_missing_cases (a nested generator function with yield, outside the executor's subset) is covered by the bounded replay only: "
-                     "grid order and absence of duplicates are decided only there",
+        not_decided=["find_missing_cases: the nested generator is evaluated eagerly (it is consumed at once by tuple()); proved: the reported tuples are exactly the "
+                     "elements of the product of the coordinate values at which is_case_missing holds (soundness and completeness); the filtered comprehension "
+                     "that selects the non-ignored dimensions, grid ORDER and absence of duplicates are decided by the bounded replay only",
                      "that xarray's sel / isnull / all / to_array / item compute 'every variable entirely null at the location' is the library's semantics: "
                      "is_case_missing is verified against named, assumed contracts of those calls (which calls, on what, combined how, and the two except paths)",
                      "order of parse_into_cases' result (positions) - the contract proves the set of locations (soundness and completeness), the replay the order"],
         assumptions=["Dataset.sel raises KeyError exactly when a requested coordinate is absent; Dataset.all().to_array() exists, DataArray.to_array() raises AttributeError"],
     )
+    return R
+
+
+def install3(R):
+    """find_missing_cases: the nested generator is evaluated eagerly (it is consumed at once by tuple())."""
+    S = R.spec
+    E = "sget(iter_(all_cases), s)"
+    Kp = "truthy(MissingAt(ds, dict(zip(fn_args, " + E + ")), method))"
+    R.add(CASE + "find_missing_cases", result="V", props=["C13"], types={"method": "str"},
+          loops={"gen_missing_list/loop0": dict(idx="_s", modifies=["_yielded", "setting", "case"], inv=[
+              ("built", "is_seq(_yielded)"),
+              ("only_missing_locations", "forall(lambda k: implies(0 <= k and k < slen(_yielded), exists(lambda s: 0 <= s and s < _s and "
+                                         "sget(_yielded, k) == " + E + " and " + Kp + ")))"),
+              ("every_missing_location", "forall(lambda s: implies(0 <= s and s < _s and " + Kp + ", sin(_yielded, " + E + ")))"),
+          ])},
+          trace=[("reports_only_locations_without_data",
+                  "forall(lambda k: implies(0 <= k and k < slen(sget(result, 1)), exists(lambda s: 0 <= s and s < slen(iter_(all_cases)) and "
+                  "sget(sget(result, 1), k) == " + E + " and " + Kp + ")))"),
+                 ("reports_every_location_without_data",
+                  "forall(lambda s: implies(0 <= s and s < slen(iter_(all_cases)) and " + Kp + ", sin(sget(result, 1), " + E + ")))"),
+                 ("names_first", "sget(result, 0) == fn_args")],
+          raises={"AnyError": dict()},
+          notes="all_cases = product of the coordinate values of the non-ignored dimensions (grid order); order and duplicate-freeness of the "
+                "report are bounded only")
     return R
